@@ -76,6 +76,11 @@ Theorem C18_swap_exchanges : forall st i j pi pj,
 Proof. exact swap_exchanges. Qed.
 Print Assumptions C18_swap_exchanges.
 
+(* a make_quaint<T> whose T constructor throws creates nothing and destroys nothing; the history goes on unchanged *)
+Theorem C18_failed_make_changes_nothing : forall st i t, q_step st (MakeThrows i t) = st.
+Proof. exact failed_make_changes_nothing. Qed.
+Print Assumptions C18_failed_make_changes_nothing.
+
 (* ... and the target owns what the source owned *)
 Theorem C18_move_transfers : forall st i j p,
   i <> j -> is_live (nth_error (pool st) j) = Some p ->
